@@ -538,7 +538,7 @@ func (vc *VC) innerTag(fn string) int {
 
 // rootOf: the object a reference belongs to (itself for ordinary references, the enclosing object for
 // derived ones); nil has no root.
-func rootOf(p Term) Term { return ite(app(">=", p, "0"), p, app("ys.root", p)) }
+func rootOf(p Term) Term { return app("ys.root", p) }
 
 // isInnerField: does field f of struct st live at a derived reference?
 func (vc *VC) isInnerField(st types.Type, f *types.Var) (inner bool, isStruct bool) {
@@ -642,6 +642,13 @@ func (vc *VC) alloc(st *State) Term {
 	}
 	vc.nonNil[r] = true
 	vc.nonNil["(not (= "+r+" 0))"] = true
+	if st == vc.cur {
+		for _, a := range vc.nextAnchors() {
+			if a != vc.next(st) {
+				vc.assume(app(">=", r, a)) // a new object is fresh with respect to the entry state and enclosing loop heads
+			}
+		}
+	}
 	vc.setComp(st, compNext, sInt, app("+", r, "1"))
 	return r
 }
